@@ -1024,6 +1024,7 @@ func ruleR14_6(c *Check) {
 }
 
 func propC14(c *Check) {
+	ruleR14_7(c)
 	ruleR14_6(c)
 	ruleR12_6(c)
 	ruleR14_1(c)
